@@ -185,6 +185,14 @@ def gen_C03(w, tier):
             sc.pred = pred_len
             out.append(sc)
             n += 1
+    # very long password / identities (above 64 KiB)
+    for name in ("ed", "1024"):
+        ps = w.ps[name]
+        long_pw = bytes((i * 13) % 253 for i in range(70001))
+        sc = exchange(w, "C03/%s/long" % name, ps, name == "1024", long_pw, (long_pw[:65537], long_pw[1:65538]), w.scalar(ps), w.scalar(ps), 1, 0,
+                      tags=("set:" + name, "long-inputs"), mode=EXACT, msg_mode=EXACT)
+        sc.pred = pred_len
+        out.append(sc)
     # default parameter set (no params= argument)
     for i in range(3 if tier == "quick" else 20):
         sc = w.scenario("C03/default/%d" % i, ("set:default",))
